@@ -328,26 +328,69 @@ func runC08(c *core.Ctx) error {
 
 func checkCompileWiring(c *core.Ctx, prog *core.Prog, r *core.Rule, compile, convert *ssa.Function) {
 	exp := compile.Params[0]
-	var convCall, goCompile, re2Compile *ssa.Call
-	for _, call := range core.Calls(compile) {
-		cl, ok := call.(*ssa.Call)
-		if !ok {
-			continue
+	// Compile and the helpers of the package it calls: the two engines may be tried in functions of their own
+	fns := []*ssa.Function{compile}
+	sites := map[*ssa.Function][]ssa.CallInstruction{}
+	{
+		seenF := map[*ssa.Function]bool{compile: true}
+		for i := 0; i < len(fns) && len(fns) < 8; i++ {
+			for _, call := range core.Calls(fns[i]) {
+				cal := call.Common().StaticCallee()
+				if cal == nil || cal == convert || core.FuncPkgPath(cal) != pkgRegex || len(cal.Blocks) == 0 {
+					continue
+				}
+				sites[cal] = append(sites[cal], call)
+				if !seenF[cal] {
+					seenF[cal] = true
+					fns = append(fns, cal)
+				}
+			}
 		}
-		switch {
-		case cl.Common().StaticCallee() == convert:
-			convCall = cl
-		case core.IsCallTo(cl.Common(), "regexp", "Compile"):
-			goCompile = cl
-		case core.IsCallTo(cl.Common(), "github.com/dlclark/regexp2", "Compile"):
-			re2Compile = cl
+	}
+	// isPat: v is the original pattern — Compile's parameter, or a helper's parameter that every call site feeds with it
+	var isPat func(v ssa.Value, d int) bool
+	isPat = func(v ssa.Value, d int) bool {
+		if v == ssa.Value(exp) {
+			return true
+		}
+		p, ok := v.(*ssa.Parameter)
+		if !ok || d > 3 || len(sites[p.Parent()]) == 0 {
+			return false
+		}
+		idx := paramIndex(p.Parent(), p)
+		for _, cs := range sites[p.Parent()] {
+			if idx < 0 || idx >= len(cs.Common().Args) || !isPat(cs.Common().Args[idx], d+1) {
+				return false
+			}
+		}
+		return true
+	}
+	var convCall, goCompile, re2Compile *ssa.Call
+	for _, f := range fns {
+		for _, call := range core.Calls(f) {
+			cl, ok := call.(*ssa.Call)
+			if !ok {
+				continue
+			}
+			switch {
+			case cl.Common().StaticCallee() == convert:
+				convCall = cl
+			case core.IsCallTo(cl.Common(), "regexp", "Compile"):
+				goCompile = cl
+			case core.IsCallTo(cl.Common(), "github.com/dlclark/regexp2", "Compile"):
+				re2Compile = cl
+			}
 		}
 	}
 	if convCall == nil || goCompile == nil || re2Compile == nil {
-		r.Undecided("Compile:anchors", c.Pos(compile.Pos()), "Compile does not call Convert, regexp.Compile and regexp2.Compile")
+		r.Undecided("Compile:anchors", c.Pos(compile.Pos()), "Compile (with the helpers of the package it calls) does not call Convert, regexp.Compile and regexp2.Compile")
 		return
 	}
-	if convCall.Common().Args[0] == ssa.Value(exp) {
+	if convCall.Parent() != goCompile.Parent() {
+		r.Undecided("Compile:anchors", c.Pos(compile.Pos()), "Convert and regexp.Compile are called in different functions: the success conditions of the linear-time path cannot be related")
+		return
+	}
+	if isPat(convCall.Common().Args[0], 0) {
 		r.Pass("Convert receives the original pattern")
 	} else {
 		r.Fail("Compile:Convert-arg", c.Pos(convCall.Pos()), "Convert is not applied to the original pattern")
@@ -359,7 +402,7 @@ func checkCompileWiring(c *core.Ctx, prog *core.Prog, r *core.Rule, compile, con
 		r.Fail("Compile:regexp-arg", c.Pos(goCompile.Pos()), "regexp.Compile does not receive the converted pattern")
 	}
 	// regexp2.Compile(exp, ECMAScript|Unicode)
-	if re2Compile.Common().Args[0] == ssa.Value(exp) {
+	if isPat(re2Compile.Common().Args[0], 0) {
 		r.Pass("regexp2.Compile receives the original pattern")
 	} else {
 		r.Fail("Compile:regexp2-arg", c.Pos(re2Compile.Pos()), "the backtracking engine does not receive the original pattern (a partially converted pattern would be an approximation)")
@@ -379,18 +422,23 @@ func checkCompileWiring(c *core.Ctx, prog *core.Prog, r *core.Rule, compile, con
 	} else {
 		r.Fail("Compile:regexp2-options", c.Pos(re2Compile.Pos()), fmt.Sprintf("regexp2 options are %d, want ECMAScript|Unicode (%d): the fallback engine would not use ECMA-262 Unicode semantics", got, wantOpt))
 	}
-	// every return not dominated by regexp2.Compile returns a goRegexp built under both success edges
+	// In the function that tries the linear-time engine (Compile itself or a helper): a goRegexp is returned only under
+	// both success edges; every other return of that function either reaches regexp2.Compile (same function) or
+	// reports failure to its caller
+	linear := convCall.Parent()
 	okEdge := core.EdgeBlocks(extractOf(convCall, 1), true)
-	for _, b := range compile.Blocks {
+	nGo := 0
+	for _, b := range linear.Blocks {
 		ret, ok := b.Instrs[len(b.Instrs)-1].(*ssa.Return)
 		if !ok {
 			continue
 		}
-		if re2Compile.Block().Dominates(b) {
+		if re2Compile.Parent() == linear && re2Compile.Block().Dominates(b) {
 			continue
 		}
 		key := "Compile:early-return"
-		mi, ok := ret.Results[0].(*ssa.MakeInterface)
+		mi, isMI := ret.Results[0].(*ssa.MakeInterface)
+		isGo := isMI && recvName(mi.X.Type()) == "goRegexp"
 		domConv := false
 		for _, eb := range okEdge {
 			if eb.Dominates(b) {
@@ -398,14 +446,23 @@ func checkCompileWiring(c *core.Ctx, prog *core.Prog, r *core.Rule, compile, con
 			}
 		}
 		domGo := core.DominatedBySuccess(goCompile, b)
-		if !ok || recvName(mi.X.Type()) != "goRegexp" || !domConv || !domGo {
+		if !isGo {
+			if linear != compile && (core.IsNilConst(ret.Results[0]) || !isMI) {
+				// the helper reports "no linear-time form": its caller decides (checked below)
+				continue
+			}
 			r.Fail(key, c.Pos(ret.Pos()), "Compile returns without trying regexp2 on a path where Convert or regexp.Compile did not both succeed")
 			continue
 		}
+		if !domConv || !domGo {
+			r.Fail(key, c.Pos(ret.Pos()), "a goRegexp is returned on a path where Convert or regexp.Compile did not both succeed")
+			continue
+		}
+		nGo++
 		r.Pass("goRegexp is returned only when Convert reported ok and regexp.Compile succeeded; all other paths reach regexp2.Compile")
 		// goRegexp{orig: exp, exp: re}
 		origOK, expOK := structFieldStores(mi.X, map[string]func(ssa.Value) bool{
-			"orig": func(v ssa.Value) bool { return v == ssa.Value(exp) },
+			"orig": func(v ssa.Value) bool { return isPat(v, 0) },
 			"exp": func(v ssa.Value) bool {
 				ex, ok := v.(*ssa.Extract)
 				return ok && ex.Tuple == ssa.Value(goCompile) && ex.Index == 0
@@ -420,6 +477,71 @@ func checkCompileWiring(c *core.Ctx, prog *core.Prog, r *core.Rule, compile, con
 			r.Pass("goRegexp.exp is the compiled converted pattern")
 		} else {
 			r.Fail("Compile:exp", c.Pos(ret.Pos()), "goRegexp.exp is not the result of regexp.Compile(converted)")
+		}
+	}
+	if nGo == 0 {
+		r.Fail("Compile:early-return", c.Pos(linear.Pos()), "no path returns a goRegexp under the success of Convert and regexp.Compile")
+	}
+	// when the linear-time attempt lives in a helper: Compile hands on the helper's result only on its success edge, every
+	// other path reaches the fallback
+	if linear != compile {
+		var lcall *ssa.Call
+		for _, cs := range sites[linear] {
+			if cl, ok := cs.(*ssa.Call); ok && cl.Parent() == compile {
+				lcall = cl
+			}
+		}
+		var fb ssa.CallInstruction
+		if re2Compile.Parent() == compile {
+			fb = re2Compile
+		} else {
+			for _, cs := range sites[re2Compile.Parent()] {
+				if cs.Parent() == compile {
+					fb = cs
+				}
+			}
+		}
+		if lcall == nil || fb == nil {
+			r.Undecided("Compile:helper-calls", c.Pos(compile.Pos()), "Compile does not call the linear-time helper and the fallback itself")
+		} else {
+			var succ []*ssa.BasicBlock
+			sig := linear.Signature.Results()
+			last := sig.At(sig.Len() - 1).Type()
+			switch {
+			case core.IsErrorType(last):
+				for _, ev := range core.ErrValueOf(lcall) {
+					succ = append(succ, core.SuccessBlocks(ev)...)
+				}
+			case isBoolT(last):
+				succ = core.EdgeBlocks(extractOf(lcall, sig.Len()-1), true)
+			default:
+				// a nil test of the single result
+				for _, ref := range *lcall.Referrers() {
+					if bo, ok := ref.(*ssa.BinOp); ok && (bo.Op == token.NEQ || bo.Op == token.EQL) && (core.IsNilConst(bo.X) || core.IsNilConst(bo.Y)) {
+						succ = append(succ, core.EdgeBlocks(bo, bo.Op == token.NEQ)...)
+					}
+				}
+			}
+			bad := false
+			for _, b := range compile.Blocks {
+				ret, ok := b.Instrs[len(b.Instrs)-1].(*ssa.Return)
+				if !ok || fb.Block().Dominates(b) {
+					continue
+				}
+				under := false
+				for _, sb := range succ {
+					if sb == b || sb.Dominates(b) {
+						under = true
+					}
+				}
+				if !under {
+					bad = true
+					r.Fail("Compile:early-return", c.Pos(ret.Pos()), "Compile returns without trying regexp2 on a path where the linear-time helper did not report success")
+				}
+			}
+			if !bad {
+				r.Pass("Compile returns the linear-time helper's result only on its success edge; every other path reaches the fallback")
+			}
 		}
 	}
 	// String methods
